@@ -5,7 +5,8 @@ open Atomman Atomman.C10
   Line protocol of the C10 driver (see harness/props/c10.py).  Replies are JSON text:
   floats are strings `"~p/q"` (exact rationals), integers are JSON numbers.
     arr   := <f|i|s> <rank> <dims…> <data…>
-    unit  := <unit string | -> <fW> <fR>        (factor under the writing / reading working units)
+    unit  := <unit string | -> <fW> <fR>        (factor under the writing / reading working units; a blank
+                                                 inside a unit expression is sent as `%`)
     uc    <via> unit arr
     box   <via> unit <12 rationals: a b c origin>
     atoms <via> <natoms> <nprops> {<name> unit arr}* [sel <k> {<name> unit}*]   (selection = the prop_unit dict)
@@ -69,7 +70,7 @@ def pUnit : P UnitSpec := fun ts =>
   match ts with
   | u :: a :: b :: r =>
     match parseRat? a, parseRat? b with
-    | some fW, some fR => some (⟨if u = "-" then none else some u, fW, fR⟩, r)
+    | some fW, some fR => some (⟨if u = "-" then none else some (u.replace "%" " "), fW, fR⟩, r)
     | _, _ => none
   | _ => none
 
